@@ -122,10 +122,10 @@ ScopeOps(S) == {OpGet(s) : s \in S} \cup {OpGetInContext(c, s) : c \in {1, 2}, s
 (* declaration order, and the configuration split over one to three files (tags and       *)
 (* decorators are appended in file order).                                                *)
 Absent == 999999
-(* TLC's integers are 32 bit: 1000001 < 1000002 stand for two different priorities far above 2^31 and -1000001 for one   *)
-(* far below -2^31; the concretiser writes the real values (order preserved)                                           *)
-TagPrios == {Absent, -5, 0, 7, 2147483647, 1000001, 1000002, -1000001}
-TagPriosQ(s) == CASE s = "s1" -> {Absent, 0, 1000001} [] s = "s2" -> {Absent, 0, 1000002} [] OTHER -> {Absent, 7, 1000001}
+(* TLC's integers are 32 bit: 1000001 < 1000002 < 1000003 stand for MaxInt32 and two different priorities far above it,   *)
+(* -1000001 for one far below -2^31; the concretiser writes the real values (the order is preserved)                     *)
+TagPrios == {Absent, -5, 0, 7, 1000001, 1000002, 1000003, -1000001}
+TagPriosQ(s) == CASE s = "s1" -> {Absent, 0, 1000002} [] s = "s2" -> {Absent, 0, 1000003} [] OTHER -> {Absent, 7, 1000002}
 PrioAssignments(zz) == IF Family = "tagsq" THEN {f \in [{"s1", "s2", "s3"} -> TagPrios] : \A s \in {"s1", "s2", "s3"} : f[s] \in TagPriosQ(s)}
                    ELSE [{"s1", "s2", "s3"} -> TagPrios]
 TagCfg(pr, t2, decs) ==
